@@ -180,6 +180,21 @@ def gen_ruleset(r, kind, natoms_target, dense):
     return "\n".join(rules)
 
 
+def sweep(r, tag, nparents, base, count, shuffle=False):
+    """`count` rule sets with base, base+1, … two-byte atoms of a dense family (few first bytes x every second byte): every
+    further atom adds one leaf state, so the lowest free slot creeps over each growth boundary of the tables one slot at a
+    time and some rule set of the sweep puts its last state EXACTLY on `tables_size - 256` / `- 257` (the growth guard)"""
+    A = r.sample(range(256), nparents)
+    seq = [(a, b) for a in A for b in range(256)]
+    if shuffle:
+        r.shuffle(seq)
+    lines = []
+    for n in range(base, base + count):
+        strs = " ".join("$s%d = { %02X %02X }" % (i, a, b) for i, (a, b) in enumerate(seq[:n]))
+        lines.append("%s%d src=%s atoms=1 actab=1 buf=-" % (tag, n, hx(("rule r { strings: %s condition: any of them }" % strs).encode())))
+    return lines
+
+
 def rulesets(r, kind, tier):
     """h_scan case lines (compile only, empty buffer) dumping atoms + tables"""
     if tier == "quick":
@@ -191,6 +206,12 @@ def rulesets(r, kind, tier):
         dense = r.random() < 0.5
         src = gen_ruleset(r, kind, n, dense)
         lines.append("ab%d src=%s atoms=1 actab=1 buf=-" % (i, hx(src.encode())))
+    if tier == "quick":
+        lines += sweep(r, "sw", r.choice([2, 3, 4]), r.randrange(20, 240), 260)
+    else:
+        for j in range(6):
+            np_ = r.choice([1, 2, 3, 4, 8, 20])
+            lines += sweep(r, "sw%d_" % j, np_, r.randrange(1, 200 * min(np_, 4)), 520, shuffle=(j >= 4))
     return lines
 
 
